@@ -5,6 +5,12 @@ from fractions import Fraction as Fr
 be = sys.argv[1] if len(sys.argv) > 1 else "py"
 ps, mods = backend.load(be)
 impl = adapters.Impl(ps, mods, be)
+# VERIF_EXACT=1: run the library on exact rationals and compare with == (harness/exact.py)
+EXACT = os.environ.get("VERIF_EXACT") == "1"
+if EXACT:
+    import exact
+    exact.install(ps, mods)
+    xstats = exact.Stats()
 cy = be == "cy"
 trains = gen.grid_trains(3, 8)
 ne = [t for t in trains]
@@ -33,8 +39,11 @@ mout = core.run_model(mcases)
 t1=time.time()
 bad = {}
 for (rid, args), mv in zip(cases, mout):
-    iv = core.call_impl(impl.call, rid, args)
-    d = core.agree(mv, iv)
+    if EXACT:
+        d, iv, _ = exact.compare(impl, rid, args, mv, core.TOL, xstats)
+    else:
+        iv = core.call_impl(impl.call, rid, args)
+        d = core.agree(mv, iv)
     if d:
         bad.setdefault(rid, []).append((args, d))
 t2=time.time()
@@ -43,3 +52,7 @@ for rid, l in sorted(bad.items()):
     print("RID", rid, adapters.ROUTINES[rid][0], len(l), "mismatches; first:")
     for args, d in l[:3]:
         print("   ", core.enc(args), "->", d)
+if EXACT:
+    print("exact mode:", " ".join("%s=%s" % kv for kv in xstats.as_dict().items() if kv[0] != "exact_fallback_samples"))
+    for m in xstats.fallback_samples:
+        print("   fallback:", m)
